@@ -379,3 +379,12 @@ CORPUS += [
     V("C19", "fjsp-file-names-fixed-width-again", _FPP, "    width = max(4, len(str(len(instances))))", "    width = 4", "C19.i"),
     V("C19", "eq-fjsp-file-names-exact-width", _FPP, "    width = max(4, len(str(len(instances))))", "    width = len(str(len(instances)))", None),
 ]
+
+# ---- from the env mutation sweep after round 7: OP length bookkeeping (C01.l / C05.l / C06.v)
+CORPUS += [
+    V("C01", "op-leg-norm-of-a-sum", _OPE, "(current_loc - previus_loc).norm(p=2, dim=-1)", "(current_loc + previus_loc).norm(p=2, dim=-1)", "C01.l"),
+    V("C05", "op-leg-norm-of-a-sum-c05", _OPE, "(current_loc - previus_loc).norm(p=2, dim=-1)", "(current_loc + previus_loc).norm(p=2, dim=-1)", "C05.l"),
+    V("C01", "op-budget-return-leg-added", _OPE, '                - (td["depot"][..., None, :] - locs_with_depot).norm(p=2, dim=-1)', '                + (td["depot"][..., None, :] - locs_with_depot).norm(p=2, dim=-1)', "C01.l"),
+    V("C06", "op-checker-return-leg-subtracted", _OPE, '                + (td["locs"][..., 0:1, :] - td["locs"]).norm(p=2, dim=-1)', '                - (td["locs"][..., 0:1, :] - td["locs"]).norm(p=2, dim=-1)', "C06.v"),
+    V("C01", "eq-op-mask-leg-operands-swapped", _OPE, '(td["locs"] - current_loc).norm(p=2, dim=-1)', '(current_loc - td["locs"]).norm(p=2, dim=-1)', None),
+]
